@@ -11,28 +11,109 @@ theorem utf8Len_pos (c : Nat) : 0 < utf8Len c := by
 
 theorem findByte_none_iff (p : Nat → Bool) (s : List Nat) :
     findByte p s = none ↔ ∀ c ∈ s, p c = false := by
-  sorry
+  induction s with
+  | nil => simp [findByte]
+  | cons c r ih =>
+    simp only [findByte, List.mem_cons, forall_eq_or_imp]
+    by_cases hc : p c = true
+    · simp [hc]
+    · have hc' : p c = false := by simpa using hc
+      simp only [hc', Bool.false_eq_true, if_false, Option.map_eq_none_iff, true_and]
+      exact ih
 
 /-- the offset found is the byte length of the longest prefix without a match -/
 theorem findByte_some (p : Nat → Bool) (s : List Nat) (pos : Nat) (h : findByte p s = some pos) :
     pos = byteLen (s.takeWhile (fun c => !p c)) ∧ ∃ c r, s.dropWhile (fun c => !p c) = c :: r ∧ p c = true := by
-  sorry
+  induction s generalizing pos with
+  | nil => simp [findByte] at h
+  | cons c r ih =>
+    simp only [findByte] at h
+    by_cases hc : p c = true
+    · simp only [hc, if_true, Option.some.injEq] at h
+      subst h
+      refine ⟨?_, c, r, ?_, hc⟩
+      · simp [hc, byteLen]
+      · simp [hc]
+    · have hc' : p c = false := by simpa using hc
+      simp only [hc', Bool.false_eq_true, if_false, Option.map_eq_some_iff] at h
+      obtain ⟨q, hq, rfl⟩ := h
+      obtain ⟨h1, c', r', h2, h3⟩ := ih q hq
+      refine ⟨?_, c', r', ?_, h3⟩
+      · simp only [List.takeWhile_cons, hc', Bool.not_false, if_true, byteLen]
+        omega
+      · simp only [List.dropWhile_cons, hc', Bool.not_false, if_true]
+        exact h2
+
+theorem sliceTo_zero (s : List Nat) : sliceTo s 0 = some [] := by
+  cases s <;> rfl
+
+theorem sliceFrom_zero (s : List Nat) : sliceFrom s 0 = some s := by
+  cases s <;> rfl
+
+theorem sliceTo_cons_pos (c : Nat) (r : List Nat) (pos : Nat) (h : 0 < pos) :
+    sliceTo (c :: r) pos =
+      if pos < utf8Len c then none else (sliceTo r (pos - utf8Len c)).map (c :: ·) := by
+  cases pos with
+  | zero => omega
+  | succ n => rfl
+
+theorem sliceFrom_cons_pos (c : Nat) (r : List Nat) (pos : Nat) (h : 0 < pos) :
+    sliceFrom (c :: r) pos =
+      if pos < utf8Len c then none else sliceFrom r (pos - utf8Len c) := by
+  cases pos with
+  | zero => omega
+  | succ n => rfl
 
 theorem sliceTo_byteLen (pre suf : List Nat) : sliceTo (pre ++ suf) (byteLen pre) = some pre := by
-  sorry
+  induction pre with
+  | nil => exact sliceTo_zero _
+  | cons c pre ih =>
+    have hp := utf8Len_pos c
+    simp only [List.cons_append, byteLen]
+    rw [sliceTo_cons_pos _ _ _ (by omega)]
+    have h1 : ¬ (utf8Len c + byteLen pre < utf8Len c) := by omega
+    have h2 : utf8Len c + byteLen pre - utf8Len c = byteLen pre := by omega
+    simp only [h1, if_false, h2, ih, Option.map_some]
 
 theorem sliceFrom_byteLen (pre suf : List Nat) : sliceFrom (pre ++ suf) (byteLen pre) = some suf := by
-  sorry
+  induction pre with
+  | nil => exact sliceFrom_zero _
+  | cons c pre ih =>
+    have hp := utf8Len_pos c
+    simp only [List.cons_append, byteLen]
+    rw [sliceFrom_cons_pos _ _ _ (by omega)]
+    have h1 : ¬ (utf8Len c + byteLen pre < utf8Len c) := by omega
+    have h2 : utf8Len c + byteLen pre - utf8Len c = byteLen pre := by omega
+    simp only [h1, if_false, h2, ih]
 
 /-- slicing at a `find` result never panics and splits at the first match -/
 theorem slice_at_find (p : Nat → Bool) (s : List Nat) (pos : Nat) (h : findByte p s = some pos) :
     sliceTo s pos = some (s.takeWhile (fun c => !p c)) ∧
     sliceFrom s pos = some (s.dropWhile (fun c => !p c)) := by
-  sorry
+  obtain ⟨hpos, _⟩ := findByte_some p s pos h
+  have hs : s = s.takeWhile (fun c => !p c) ++ s.dropWhile (fun c => !p c) :=
+    (List.takeWhile_append_dropWhile).symm
+  subst hpos
+  constructor
+  · conv => lhs; arg 1; rw [hs]
+    exact sliceTo_byteLen _ _
+  · conv => lhs; arg 1; rw [hs]
+    exact sliceFrom_byteLen _ _
 
 /-- a slice position strictly inside a multi-byte character is rejected (= Rust panic) -/
 theorem sliceTo_inside (pre suf : List Nat) (c k : Nat) (hk : 0 < k) (hk' : k < utf8Len c) :
     sliceTo (pre ++ c :: suf) (byteLen pre + k) = none := by
-  sorry
+  induction pre with
+  | nil =>
+    simp only [List.nil_append, byteLen, Nat.zero_add]
+    rw [sliceTo_cons_pos _ _ _ hk]
+    simp [hk']
+  | cons d pre ih =>
+    have hp := utf8Len_pos d
+    simp only [List.cons_append, byteLen]
+    rw [sliceTo_cons_pos _ _ _ (by omega)]
+    have h1 : ¬ (utf8Len d + byteLen pre + k < utf8Len d) := by omega
+    have h2 : utf8Len d + byteLen pre + k - utf8Len d = byteLen pre + k := by omega
+    simp only [h1, if_false, h2, ih, Option.map_none]
 
 end Precis
